@@ -33,6 +33,9 @@ def strategy(tier):
         "patterns": st.lists(pat, min_size=0, max_size=5),
         "recursive": st.sampled_from([True, True, True, False]),
         "order": st.one_of(st.none(), st.lists(st.integers(0, 11), min_size=1, max_size=8)),
+        "cwd": st.sampled_from(["elsewhere", "elsewhere", "input", "subdir"]),
+        # entries sharing one base name: a directory and a file called gen.cmake in different places, dup.cmake at two depths
+        "samename": st.sampled_from([None, None, "e", "s", "u"]),
     })
 
 
@@ -90,14 +93,40 @@ def cross_check(patterns, paths):
                 raise HarnessError(f"pattern oracle disagreement: pattern {pat!r} path {p!r} dir={is_dir}: own={mine} pathspec={theirs}")
 
 
+def add_samename(tree):
+    import copy
+    t = copy.deepcopy(tree)
+    t["dirs"]["gen.cmake"] = {"files": {"inside.cmake": "function(inside_gen)\nendfunction()\n"}, "dirs": {}}
+    t["files"]["dup.cmake"] = "function(dup_top)\nendfunction()\n"
+    host = sorted(d for d in t["dirs"] if d != "gen.cmake")
+    if host:
+        t["dirs"][host[-1]]["files"]["gen.cmake"] = "function(gen_file)\nendfunction()\n"
+        t["dirs"][host[-1]]["files"]["dup.cmake"] = "function(dup_deep)\nendfunction()\n"
+    else:
+        t["dirs"]["zz_host"] = {"files": {"gen.cmake": "function(gen_file)\nendfunction()\n",
+                                          "dup.cmake": "function(dup_deep)\nendfunction()\n"}, "dirs": {}}
+    return t
+
+
 def evaluate(case):
     res = Result()
     tree = T.fill(case["tree"])
+    if case.get("samename"):
+        tree = add_samename(tree)
+        res.labels.append("same-base-name-entries")
     with S.Sandbox("c15") as sb:
         inp = sb.path("in")
         S.materialize(tree, inp)
         cwd = sb.path("cwd")
+        if case.get("cwd") == "input":
+            cwd = inp                 # bare-name patterns then also name entries of the working directory
+        elif case.get("cwd") == "subdir" and tree["dirs"]:
+            cwd = os.path.join(inp, sorted(tree["dirs"])[0])
         pats = build_patterns(case, tree, inp)
+        if case.get("samename"):
+            # a directory-only pattern and a bare file name, both free of slashes
+            pats = [(p, s) for p, s in pats if "/" not in p.rstrip("/")][:2] + [("gen.cmake/", case["samename"]),
+                                                                                  ("dup.cmake", case["samename"])]
         plist = [p for p, _ in pats]
         all_paths = [(inp, True)] + [(inp + "/" + d, True) for d in S.tree_dirs(tree)] + \
                     [(inp + "/" + f, False) for f, _ in S.tree_files(tree)]
@@ -174,6 +203,8 @@ def evaluate(case):
 
 def describe(case):
     tree = T.fill(case["tree"])
+    if case.get("samename"):
+        tree = add_samename(tree)
     return {"files": sorted(p for p, _ in S.tree_files(tree)), "dirs": S.tree_dirs(tree),
             "patterns": [(p, s) for p, s in build_patterns(case, tree, "<input>")], "order": case["order"],
             "recursive": case["recursive"]}
